@@ -80,6 +80,7 @@ type HarnessStats struct {
 	Outside     map[string]int
 	Unsupported map[string]int
 	Budget      int
+	Hangs       int
 	Obligations int
 	Discharged  int
 	ByModel     int
@@ -851,6 +852,28 @@ func (e *Engine) finishPath(end pathEnd) {
 	case "budget":
 		st.Budget++
 		st.Unsupported["budget: "+trimWhere(end.reason)]++
+		if strings.HasPrefix(end.reason, "instruction budget") {
+			// A path that does not end within the instruction budget on inputs of a few bytes may be a loop that
+			// never ends (C11: ServeHTTP returns in bounded time). It stays inconclusive for the engine, but its
+			// inputs go to the native twin: only if the real code does not return there either (timeout) is it
+			// reported as a violation.
+			if e.model == nil {
+				func() {
+					defer func() {
+						if r := recover(); r != nil {
+							if _, ok := r.(pathEnd); !ok {
+								panic(r)
+							}
+						}
+					}()
+					e.ensureModel()
+				}()
+			}
+			if e.model != nil && st.Hangs < 2 {
+				st.Hangs++
+				e.violation("hang", "terminates", end.reason, nil)
+			}
+		}
 	}
 }
 
